@@ -60,8 +60,23 @@ func gen(r *hx.Run) []json.RawMessage {
 		b, _ := json.Marshal(o)
 		prog = append(prog, b)
 	}
-	for guard := 0; remaining > 0 && guard < 200; guard++ {
-		switch r.Ops.Pick("op", 10, 6, 4, 1, 1) {
+	tail := -1
+	for guard := 0; guard < 200; guard++ {
+		if remaining == 0 {
+			// a few more operations after the last enqueue (a restart or an outage with nothing new arriving)
+			if tail < 0 {
+				tail = r.Ops.Choose(4, "tail")
+			}
+			if tail == 0 {
+				break
+			}
+			tail--
+		}
+		wEnq := 10
+		if remaining == 0 {
+			wEnq = 0
+		}
+		switch r.Ops.Pick("op", wEnq, 6, 4, 1, 2) {
 		case 0:
 			n := r.Ops.Range(1, 3, "n")
 			if n > remaining {
@@ -603,6 +618,8 @@ func (w *world) accept(rq *request, id int) {
 // ------------------------------------------------------------------------------------------------
 // workload side
 
+var gzw *gzip.Writer // one compressor for the whole process (allocating one per batch dominated the profile)
+
 func (w *world) newBatch(shape int, kick bool) *batch {
 	id := len(w.batches)
 	var sb strings.Builder
@@ -614,9 +631,13 @@ func (w *world) newBatch(shape int, kick bool) *batch {
 		fmt.Fprintf(&sb, "mem,batch=b%04d note=\"%s\" %d\n", id, strings.Repeat("x", 700), 946684800000000000+int64(id))
 	}
 	var gz bytes.Buffer
-	zw := gzip.NewWriter(&gz)
-	zw.Write([]byte(sb.String()))
-	zw.Close()
+	if gzw == nil {
+		gzw = gzip.NewWriter(&gz)
+	} else {
+		gzw.Reset(&gz)
+	}
+	gzw.Write([]byte(sb.String()))
+	gzw.Close()
 	b := &batch{id: id, text: sb.String(), gz: gz.Bytes(), kick: kick}
 	w.batches = append(w.batches, b)
 	w.byText[b.text] = id
@@ -966,7 +987,11 @@ func (w *world) kicked(a, b *attempt) bool {
 			break
 		}
 	}
-	if w.usedAck > lo {
+	if w.weird {
+		// a negative wait makes the retry timer ready at once; select may then prefer it and leave an older signal
+		// in the channel, so the window cannot be bounded by the previous failure
+		lo = w.incs[a.inc].seqOpen
+	} else if w.usedAck > lo {
 		lo = w.usedAck
 	}
 	for _, e := range w.batches {
